@@ -6,6 +6,8 @@
 // RoleEvents handed to ParentAdapter.SendEvents and what the ParentAdapter's subscribers
 // received.  Interleavings of UpdateState calls are forced deterministically by blocking inside
 // the SendEvents callback (the role code calls it between its own merge and the parent call).
+// Gate cases (gate.go) stop one update inside the re-aggregation of an aggregator and start a second
+// one meanwhile: pre-emption inside a merge.
 //
 //	h11 -gen coq/gen/Gen_StateX.v | Gen_StatusX.v     exhaustive tables (see tables.go)
 //	h11 -seed N -n N -out DIR [-shards K] [-replay FILE] [-tier quick|thorough]
@@ -18,6 +20,7 @@ import (
 	"path/filepath"
 	"sort"
 	"strings"
+	"sync"
 
 	"github.com/AliceO2Group/Control/common/event"
 	"github.com/AliceO2Group/Control/common/gera"
@@ -65,6 +68,7 @@ type input struct {
 	Ops2   []opIn     `json:"ops2,omitempty"`  // comm: second order
 	Tree2  *nodeIn    `json:"tree2,omitempty"` // perm: same roles, children permuted
 	Sched  []int      `json:"sched,omitempty"` // conc: token index per segment (Ops are the tokens)
+	Gate   *gateIn    `json:"gate,omitempty"`  // gate: Ops[0] is stopped inside the merge of Gate.P, then Ops[1] starts (gate.go)
 }
 
 // ---------------------------------------------------------------- YAML
@@ -131,8 +135,10 @@ func toYAML(root nodeIn) yamlOut {
 // ---------------------------------------------------------------- running tree
 
 type recorder struct {
-	events  [][2]string // (role path, "S:<state>" | "X:<status>")
-	onEvent func()
+	mu          sync.Mutex
+	events      [][2]string // (role path, "S:<state>" | "X:<status>")
+	onEvent     func()
+	onEventPath func(rolePath string) // gate cases: called on the goroutine that sends the event
 }
 
 type live struct {
@@ -154,15 +160,22 @@ func load(in nodeIn) (*live, error) {
 		func() gera.Map[string, string] { return m }, func() gera.Map[string, string] { return m },
 		func() gera.Map[string, string] { return m },
 		func(e event.Event) {
+			path := ""
 			if re, ok := e.(*event.RoleEvent); ok {
 				v := "S:" + re.State
 				if re.State == "" {
 					v = "X:" + re.Status
 				}
+				path = re.RolePath
+				l.rec.mu.Lock()
 				l.rec.events = append(l.rec.events, [2]string{re.RolePath, v})
+				l.rec.mu.Unlock()
 			}
 			if l.rec.onEvent != nil {
 				l.rec.onEvent()
+			}
+			if f := l.rec.onEventPath; f != nil {
+				f(path)
 			}
 		})
 	l.stCh = make(chan sm.State, 4096)
@@ -546,6 +559,8 @@ func runCase(kind string, in input) gen.Case {
 		return casePerm(in)
 	case "conc":
 		return caseConc(in)
+	case "gate":
+		return caseGate(in)
 	default:
 		return caseSeq(in)
 	}
@@ -615,6 +630,9 @@ func main() {
 		for _, c := range corpus() {
 			cases = append(cases, runCase(c.kind, c.in))
 		}
+		for _, in := range gateCorpus() {
+			cases = append(cases, caseGate(in))
+		}
 		// optional extra corpus files (replay format)
 		files, _ := filepath.Glob("corpus/C11/*.json")
 		sort.Strings(files)
@@ -636,7 +654,8 @@ func main() {
 		}
 		cases = append(cases, generate(o)...)
 	}
-	extra := map[string]any{"note": "cases 0-3 are the corpus: C11-a witness (twice), C11-b witness schedule, C11-c witness"}
+	extra := map[string]any{"note": "cases 0-5 are the corpus: C11-a witness (twice), C11-b witness schedule, C11-c witness, two gate cases (state: the split-merge witness of C11_error_lost_if_merge_not_atomic plus an aggregator for the gate; status: the same tree)",
+		"gate_wait_ms": int(gateWait() / 1e6)}
 	if err := gen.WriteCases(o, "C11", "From Verif Require Import Common RoleTree.", "c11_case", "report11", cases, extra); err != nil {
 		panic(err)
 	}
